@@ -31,10 +31,10 @@ inline void assertion_failed_msg(char const* expr, char const*, char const*, cha
 namespace gil = boost::gil;
 using ll = long long;
 
-struct Op { std::vector<std::string> head; std::vector<std::vector<ll>> groups; };
+struct Op { std::vector<std::string> head; std::vector<std::vector<ll>> groups; std::string geo; };
 static Op parse(std::string const& line) {
     Op op; auto w = hv::words(line); size_t i = 0;
-    while (i < w.size() && w[i] != "|") op.head.push_back(w[i++]);
+    while (i < w.size() && w[i] != "|") { if (w[i][0] == '@') op.geo = w[i].substr(1); else op.head.push_back(w[i]); ++i; }
     while (i < w.size()) { ++i; std::vector<ll> g; while (i < w.size() && w[i] != "|") g.push_back(hv::to_ll(w[i++])); op.groups.push_back(g); }
     return op;
 }
@@ -68,70 +68,122 @@ template <class Img> struct Buf {
     Buf(ll w, ll h) : img(w + 1, h + 1), v(window(gil::view(img), 0, 0, w, h)) {}
 };
 
-template <class SrcImg, class DstImg>
+
+// A view of logical size w x h with a chosen MEMORY GEOMETRY over a guard-filled canvas (op word "@<src><dst>"):
+//   f  the whole image (rows back to back: is_1d_traversable)      w  top-left window of a (w+1) x (h+1) image (the legacy layout)
+//   s  sub-view at (2,1) of a (w+5) x (h+3) canvas (row padding on both sides)      y / z  f / s flipped upside down (negative row stride)
+//   x  (only where instantiated) s mirrored left-right: an x-stepped view of a different type
+// frame(): resets the view's own pixels to the guard and counts the canvas channels that still differ from the guard, i.e. the
+// cells OUTSIDE the view that were written ("none of them writes outside the destination").
+template <class Img> struct GV {
+    Img canvas; typename Img::view_t v; ll guard;
+    GV(ll w, ll h, char g, ll guard_) : guard(guard_) {
+        if (w == 0 || h == 0) { if (g == 'f') g = 's'; if (g == 'y') g = 'z'; }
+        ll x0 = 0, y0 = 0, cw = w, ch = h;
+        if (g == 's' || g == 'z' || g == 'x') { x0 = 2; y0 = 1; cw = w + 5; ch = h + 3; }
+        else if (g == 'w') { cw = w + 1; ch = h + 1; }
+        canvas.recreate(cw, ch); fillv(gil::view(canvas), guard);
+        v = window(gil::view(canvas), x0, y0, w, h);
+        if (g == 'y' || g == 'z') v = gil::flipped_up_down_view(v);
+    }
+    ll frame() {
+        using C = typename gil::channel_type<typename Img::view_t>::type; constexpr int N = gil::num_channels<typename Img::view_t>::value;
+        fillv(v, guard); ll n = 0; auto cv = gil::view(canvas);
+        for (ll y = 0; y < cv.height(); ++y) for (ll x = 0; x < cv.width(); ++x) { typename Img::view_t::reference p = cv(x, y); for (int k = 0; k < N; ++k) if (p[k] != C(guard)) ++n; }
+        return n;
+    }
+};
+static std::string framed(ll n, std::string const& obs) { return n ? "frame-violated:" + std::to_string(n) + " " + obs : obs; }
+static char geo_of(Op const& op, int i, char dflt) { return (int)op.geo.size() > i ? op.geo[i] : dflt; }
+
+template <class SV, class DV, class DC>
+void th_call(SV const& sv, DV const& dv, std::string const& kind, bool inv, DC t, DC mx, bool& bad) {
+    auto dir = inv ? gil::threshold_direction::inverse : gil::threshold_direction::regular;
+    if (kind == "bin") gil::threshold_binary(sv, dv, t, mx, dir);
+    else if (kind == "binmax") gil::threshold_binary(sv, dv, t, dir);
+    else if (kind == "tt") gil::threshold_truncate(sv, dv, t, gil::threshold_truncate_mode::threshold, dir);
+    else if (kind == "tz") gil::threshold_truncate(sv, dv, t, gil::threshold_truncate_mode::zero, dir);
+    else bad = true;
+}
+template <class SrcImg, class DstImg, bool XVIEWS = false>
 std::string th(Op const& op) {
     auto const& hd = op.head;
     std::string kind = hd[1]; bool inv = hd[2] == "inv";
     ll w = hv::to_ll(hd[4]), h = hv::to_ll(hd[5]), t = hv::to_ll(hd[6]), mx = hv::to_ll(hd[7]);
     using DC = typename gil::channel_type<typename DstImg::view_t>::type;
-    Buf<SrcImg> s(w, h); load(s.v, op.groups, 0);
-    Buf<DstImg> d(w, h); fillv(d.v, 77);
+    char gs = geo_of(op, 0, 'w'), gd = geo_of(op, 1, 'w');
+    if (!XVIEWS) { if (gs == 'x') gs = 's'; if (gd == 'x') gd = 's'; }
+    GV<SrcImg> s(w, h, gs, 33);
+    GV<DstImg> d(w, h, gd, 77);
+    bool bad = false; std::string out;
     typename SrcImg::const_view_t sv(s.v);
-    auto dir = inv ? gil::threshold_direction::inverse : gil::threshold_direction::regular;
-    if (kind == "bin") gil::threshold_binary(sv, d.v, DC(t), DC(mx), dir);
-    else if (kind == "binmax") gil::threshold_binary(sv, d.v, DC(t), dir);
-    else if (kind == "tt") gil::threshold_truncate(sv, d.v, DC(t), gil::threshold_truncate_mode::threshold, dir);
-    else if (kind == "tz") gil::threshold_truncate(sv, d.v, DC(t), gil::threshold_truncate_mode::zero, dir);
-    else return "bad-op";
-    return dims(d.v) + planes_of(d.v, " |");
+    if (XVIEWS && (gs == 'x' || gd == 'x')) {
+        auto sx = gil::flipped_left_right_view(s.v); auto dx = gil::flipped_left_right_view(d.v);
+        if (gs == 'x') load(sx, op.groups, 0); else load(s.v, op.groups, 0);
+        auto csx = gil::flipped_left_right_view(sv);
+        if (gs == 'x' && gd == 'x') th_call(csx, dx, kind, inv, DC(t), DC(mx), bad);
+        else if (gs == 'x') th_call(csx, d.v, kind, inv, DC(t), DC(mx), bad);
+        else th_call(sv, dx, kind, inv, DC(t), DC(mx), bad);
+        out = gd == 'x' ? dims(dx) + planes_of(dx, " |") : dims(d.v) + planes_of(d.v, " |");
+    } else {
+        load(s.v, op.groups, 0);
+        th_call(sv, d.v, kind, inv, DC(t), DC(mx), bad);
+        out = dims(d.v) + planes_of(d.v, " |");
+    }
+    if (bad) return "bad-op";
+    return framed(d.frame(), out);
 }
 template <class Img>
 std::string ot(Op const& op) {
     auto const& hd = op.head;
     bool inv = hd[2] == "inv"; ll w = hv::to_ll(hd[3]), h = hv::to_ll(hd[4]);
-    Buf<Img> s(w, h); load(s.v, op.groups, 0);
-    Buf<Img> d(w, h); fillv(d.v, 77);
+    GV<Img> s(w, h, geo_of(op, 0, 'w'), 33); load(s.v, op.groups, 0);
+    GV<Img> d(w, h, geo_of(op, 1, 'w'), 77);
     typename Img::const_view_t sv(s.v);
     gil::threshold_optimal(sv, d.v, gil::threshold_optimal_value::otsu, inv ? gil::threshold_direction::inverse : gil::threshold_direction::regular);
-    return dims(d.v) + planes_of(d.v, " |");
+    std::string out = dims(d.v) + planes_of(d.v, " |");
+    return framed(d.frame(), out);
 }
 template <class Img>
 std::string mo(Op const& op) {
     auto const& hd = op.head;
     ll w = hv::to_ll(hd[2]), h = hv::to_ll(hd[3]), ks = hv::to_ll(hd[4]), cy = hv::to_ll(hd[5]), cx = hv::to_ll(hd[6]); int iters = (int)hv::to_ll(hd[7]);
-    Img src(w, h); load(gil::view(src), op.groups, 1);
+    char gs = geo_of(op, 0, 'f'), gd = geo_of(op, 1, 'f');
+    using CV = typename Img::const_view_t;
+    GV<Img> src(w, h, gs, 33); load(src.v, op.groups, 1);
     std::vector<float> kv(op.groups.at(0).begin(), op.groups.at(0).end());
     if ((ll)kv.size() != ks * ks) return "bad-op";
     gil::detail::kernel_2d<float> ker(kv.begin(), kv.size(), cy, cx);
-    Img dil(w, h), ero(w, h), opn(w, h), cls(w, h), opn2(w, h), cls2(w, h);
-    gil::dilate(gil::const_view(src), gil::view(dil), ker, iters);
-    gil::erode(gil::const_view(src), gil::view(ero), ker, iters);
-    gil::opening(gil::const_view(src), gil::view(opn), ker);
-    gil::closing(gil::const_view(src), gil::view(cls), ker);
-    gil::opening(gil::const_view(opn), gil::view(opn2), ker);
-    gil::closing(gil::const_view(cls), gil::view(cls2), ker);
+    GV<Img> dil(w, h, gd, 77), ero(w, h, gd, 77), opn(w, h, gd, 77), cls(w, h, gd, 77), opn2(w, h, gd, 77), cls2(w, h, gd, 77);
+    gil::dilate(CV(src.v), dil.v, ker, iters);
+    gil::erode(CV(src.v), ero.v, ker, iters);
+    gil::opening(CV(src.v), opn.v, ker);
+    gil::closing(CV(src.v), cls.v, ker);
+    gil::opening(CV(opn.v), opn2.v, ker);
+    gil::closing(CV(cls.v), cls2.v, ker);
     using C = typename gil::channel_type<typename Img::view_t>::type;
     ll const K = (ll)std::numeric_limits<C>::min() + (ll)std::numeric_limits<C>::max();
     std::vector<std::vector<ll>> comp;
     for (size_t g = 1; g < op.groups.size(); ++g) { comp.push_back(op.groups[g]); for (auto& v : comp.back()) v = K - v; }
-    Img csrc(w, h); load(gil::view(csrc), comp, 0);
-    Img cdil(w, h), cero(w, h);
-    gil::dilate(gil::const_view(csrc), gil::view(cdil), ker, iters);
-    gil::erode(gil::const_view(csrc), gil::view(cero), ker, iters);
-    return dims(gil::view(src)) + planes_of(gil::view(dil), " /") + " |" + planes_of(gil::view(ero), " /") + " |" + planes_of(gil::view(opn), " /") + " |" +
-           planes_of(gil::view(cls), " /") + " |" + planes_of(gil::view(opn2), " /") + " |" + planes_of(gil::view(cls2), " /") + " |" +
-           planes_of(gil::view(cdil), " /") + " |" + planes_of(gil::view(cero), " /");
+    GV<Img> csrc(w, h, gs, 33); load(csrc.v, comp, 0);
+    GV<Img> cdil(w, h, gd, 77), cero(w, h, gd, 77);
+    gil::dilate(CV(csrc.v), cdil.v, ker, iters);
+    gil::erode(CV(csrc.v), cero.v, ker, iters);
+    std::string out = dims(src.v) + planes_of(dil.v, " /") + " |" + planes_of(ero.v, " /") + " |" + planes_of(opn.v, " /") + " |" +
+           planes_of(cls.v, " /") + " |" + planes_of(opn2.v, " /") + " |" + planes_of(cls2.v, " /") + " |" +
+           planes_of(cdil.v, " /") + " |" + planes_of(cero.v, " /");
+    return framed(dil.frame() + ero.frame() + opn.frame() + cls.frame() + opn2.frame() + cls2.frame() + cdil.frame() + cero.frame(), out);
 }
 template <class Img>
 std::string me(Op const& op) {
     auto const& hd = op.head;
     ll w = hv::to_ll(hd[2]), h = hv::to_ll(hd[3]), k = hv::to_ll(hd[4]);
-    Img src(w, h); load(gil::view(src), op.groups, 0);
-    Img dst(w, h); fillv(gil::view(dst), 77);
-    gil::median_filter(gil::const_view(src), gil::view(dst), (std::size_t)k);
-    return dims(gil::view(dst)) + planes_of(gil::view(dst), " |");
+    GV<Img> src(w, h, geo_of(op, 0, 'f'), 33); load(src.v, op.groups, 0);
+    GV<Img> dst(w, h, geo_of(op, 1, 'f'), 77);
+    gil::median_filter(typename Img::const_view_t(src.v), dst.v, (std::size_t)k);
+    std::string out = dims(dst.v) + planes_of(dst.v, " |");
+    return framed(dst.frame(), out);
 }
-
 template <class Img>
 std::string adT(Op const& op) {
     auto const& hd = op.head;
@@ -154,13 +206,15 @@ std::string ad(Op const& op) {
     using C = typename gil::channel_type<typename Img::view_t>::type;
     bool gauss = hd[2] == "gauss", inv = hd[3] == "inv"; ll w = hv::to_ll(hd[4]), h = hv::to_ll(hd[5]); std::size_t k = (std::size_t)hv::to_ll(hd[6]);
     ll cst = hv::to_ll(hd[7]), mx = hv::to_ll(hd[8]);
-    Img src(w, h); load(gil::view(src), op.groups, 0);
-    Img dst(w, h); fillv(gil::view(dst), 77);
+    GV<Img> src(w, h, geo_of(op, 0, 'f'), 33); load(src.v, op.groups, 0);
+    GV<Img> dst(w, h, geo_of(op, 1, 'f'), 77);
+    typename Img::const_view_t sv(src.v);
     auto meth = gauss ? gil::threshold_adaptive_method::gaussian : gil::threshold_adaptive_method::mean;
     auto dir = inv ? gil::threshold_direction::inverse : gil::threshold_direction::regular;
-    if (mx < 0) gil::threshold_adaptive(gil::const_view(src), gil::view(dst), k, meth, dir, (int)cst);   // overload: max = channel max, int constant
-    else gil::threshold_adaptive(gil::const_view(src), gil::view(dst), C(mx), k, meth, dir, C(cst));
-    return dims(gil::view(dst)) + planes_of(gil::view(dst), " |");
+    if (mx < 0) gil::threshold_adaptive(sv, dst.v, k, meth, dir, (int)cst);   // overload: max = channel max, int constant
+    else gil::threshold_adaptive(sv, dst.v, C(mx), k, meth, dir, C(cst));
+    std::string out = dims(dst.v) + planes_of(dst.v, " |");
+    return framed(dst.frame(), out);
 }
 
 int main() {
@@ -171,7 +225,7 @@ int main() {
 #ifdef PT_A
         if (h[0] == "th" && h.size() == 8) {
             std::string p = h[3];
-            if (p == "u8_u8") return th<gil::gray8_image_t, gil::gray8_image_t>(op);
+            if (p == "u8_u8") return th<gil::gray8_image_t, gil::gray8_image_t, true>(op);
             if (p == "i8_i8") return th<gil::gray8s_image_t, gil::gray8s_image_t>(op);
             if (p == "u16_u16") return th<gil::gray16_image_t, gil::gray16_image_t>(op);
             if (p == "i16_i16") return th<gil::gray16s_image_t, gil::gray16s_image_t>(op);
